@@ -117,6 +117,13 @@ def worker_main(prop_id):
     devnull = open(os.devnull, "w")
     os.dup2(devnull.fileno(), 1)
     sys.stdout = devnull
+    try:
+        import resource
+
+        lim = int(os.environ.get("VERIF_WORKER_MEM_GB", "4")) << 30
+        resource.setrlimit(resource.RLIMIT_AS, (lim, lim))  # a runaway loop gets MemoryError, not the whole machine
+    except Exception:
+        pass
     mod = importlib.import_module("vf.props." + prop_id.lower())
     for line in sys.stdin:
         line = line.strip()
